@@ -62,7 +62,7 @@ ConstOp(s, op, k) == /\ IsLive(pool, s) /\ k # s /\ (IF k = 0 THEN TRUE ELSE ~Is
                      /\ pool' = IF k = 0 THEN pool ELSE [pool EXCEPT ![k] = Mk(k, "R", s)]
                      /\ act' = A("const:" \o op, s, k, "-", "const")
 (* failing variants *)
-ThrowSet(d, c, f) == /\ WithThrows /\ IsLive(pool, d) /\ c # "E" /\ UNCHANGED pool
+ThrowSet(d, c, f) == /\ WithThrows /\ IsLive(pool, d) /\ c # "E" /\ f # "substbad" /\ UNCHANGED pool
                      /\ act' = A("throw:" \o f, d, 0, c, "throw")
 ThrowConstruct(d, c) == /\ WithThrows /\ ~IsLive(pool, d) /\ c # "E" /\ UNCHANGED pool
                         /\ act' = A("throwconstruct", d, 0, c, "throw")
